@@ -232,7 +232,7 @@ def query_complaints(u, factories):
         want = [e for e in attached if e.qname == q]
         if sorted(map(id, got)) != sorted(map(id, want)):
             bad.append(('doc.getElementsByType', q[1], sorted(u.id_of(e) for e in got), sorted(u.id_of(e) for e in want)))
-    for e in attached[:1] + [x for x in u.nodes if x.nodeType == Node.ELEMENT_NODE and x.childNodes][:4]:
+    for e in attached[:1] + [x for x in u.nodes if x.nodeType == Node.ELEMENT_NODE and x.childNodes][:4] + [x for x in u.nodes[-6:] if x.nodeType == Node.ELEMENT_NODE and x.childNodes]:
         for f in factories[:3]:
             q = f(check_grammar=False).qname
             got = e.getElementsByType(f); want = [x for x in traverse(e) if x.qname == q]
